@@ -2,7 +2,7 @@
 from sched import *
 
 PROP = "C06"
-THEOREMS = ["C06", "C06Bound"]
+THEOREMS = ["C06", "C06Bound", "C06Term"]
 
 
 def probe_f19(run, har):
